@@ -3,6 +3,7 @@
 (*   lines  : sequence of line kinds                                        *)
 (*              "e" empty line, "s" short record, "l" long record,           *)
 (*              "h" record longer than the 16 KiB end-scan lookahead,        *)
+(*              "g" record longer than two lookahead windows (40 KB),        *)
 (*              "q" record whose string value contains a line break          *)
 (*                  (CSV: quoted, scanned with newlines_in_values = true;    *)
 (*                   NDJSON: escaped, so no raw line break)                  *)
